@@ -910,3 +910,494 @@ Proof.
   - vm_compute. reflexivity.
   - vm_compute. reflexivity.
 Qed.
+
+(* ------------------------------------------------------------------------------------------- *)
+(* 8. the grouped form  E <<= Group(E + tail...) | base : left-nested token trees               *)
+(* ------------------------------------------------------------------------------------------- *)
+(* [a; op; b; op; c] -> [[[a; op; b]; op; c]]  (tools/props/c04.py `left_nest`) *)
+Fixpoint left_nest_go (cur : tok) (rest : list tok) : tok :=
+  match rest with
+  | op :: b :: rest' => left_nest_go (TList [cur; op; b]) rest'
+  | _ => cur
+  end.
+Definition left_nest (ts : list tok) : list tok :=
+  match ts with
+  | [] => []
+  | [a] => [a]
+  | a :: rest => [left_nest_go a rest]
+  end.
+
+(* the general fold: every round wraps "what there is so far, then this round's tokens" into one list value *)
+Definition nest_rounds (v : list tok) (rounds : list (list tok)) : list tok :=
+  fold_left (fun cur t => [TList (cur ++ t)]) rounds v.
+
+Lemma left_nest_go_rounds rounds : forall cur,
+  Forall (fun t => length t = 2) rounds ->
+  nest_rounds [cur] rounds = [left_nest_go cur (concat rounds)].
+Proof.
+  induction rounds as [|t rounds IH]; intros cur H; [reflexivity|].
+  inversion H as [|t' r' Ht Hr]; subst.
+  destruct t as [|op [|b [|c t]]]; try discriminate.
+  cbn [nest_rounds fold_left concat app left_nest_go]. apply (IH (TList [cur; op; b]) Hr).
+Qed.
+
+(* one token from base, two tokens (operator, operand) per round: the fold is `left_nest` of the flat list *)
+Lemma nest_rounds_left_nest a rounds :
+  Forall (fun t => length t = 2) rounds ->
+  nest_rounds [a] rounds = left_nest ([a] ++ concat rounds).
+Proof.
+  intros H. rewrite left_nest_go_rounds by exact H. cbn [app left_nest].
+  destruct (concat rounds) as [|x [|y r]]; reflexivity.
+Qed.
+
+Lemma as_list_wrap a r : pr_as_list (wrap a r) = pr_as_list r.
+Proof. reflexivity. Qed.
+
+Section Grouped.
+Variable G : env.
+Variable s : str.
+Variable ans : expr -> nat -> outcome.
+Variables (id : nat) (aE ab aG aa : attrs) (aspy : bool) (tail : list expr) (base : expr).
+Let E : expr := Fwd aE [] (Some id).
+Let inner : expr := Nary aa [] NAnd (E :: tail).
+Let alt : expr := Enh aG [] (EGroup aspy) inner.
+Let body : expr := Nary ab [] NMatchFirst [alt; base].
+Variables (loc f0 : nat).
+
+Hypothesis HG : nth_error G id = Some body.
+Hypothesis HpE : plain aE.
+Hypothesis Hpa : plain aa.
+Hypothesis Hpb : plain ab.
+Hypothesis HpG : plain aG.
+(* the Group's own whitespace skipping does not move away from loc (the And inside is called without preParse) *)
+Hypothesis HstG : ws_of aG s loc = loc.
+Hypothesis Hbase_ind : indep G s ans f0 base.
+Hypothesis Htail_ind : forall c, In c tail -> indep G s ans f0 c.
+Variables (lb : nat) (rb : pres).
+Hypothesis Hbase : ans base loc = Ok lb rb.
+
+(* Group.postParse + the ParseResults wrap of _parseNoCache *)
+Definition gwrap (p : pres) : pres := pr_init (post_parse alt (RPR p)) None (aslist aG) (modalr aG).
+
+Lemma as_list_gwrap p : pr_as_list (gwrap p) = [TList (pr_as_list p)].
+Proof. unfold gwrap, alt. cbn [post_parse]. destruct aspy; reflexivity. Qed.
+
+Lemma parse_lr_enh f m a ign k c s0 l d pre :
+  parse_lr G (S f) m (mkargs (Enh a ign k c) s0 l d pre) =
+  runm (parse_lr G f) m (step G (mkargs (Enh a ign k c) s0 l d pre)).
+Proof. reflexivity. Qed.
+
+Lemma pre_parse_enh_nil fail a k c s0 l kk :
+  pre_parse fail (Enh a [] k c) s0 l kk = kk (if skipws a then skip_white s0 l (white a) else l).
+Proof. unfold pre_parse. cbn [ign_of attrs_of]. rewrite skip_ignorables_nil. reflexivity. Qed.
+
+(* the And inside the Group, called with callPreParse = False, given E's memo entry *)
+Lemma inner_answer f dd m pl pr :
+  f0 <= f -> pe_res pr -> active m (loc, nid aE, dd) = Some (pl, pr) ->
+  parse_lr G (S (S f)) m (mkargs inner s loc dd false) = Some (alt_out s ans aE aa tail loc pl pr, m).
+Proof.
+  intros Hf Hpr Hact. unfold inner. rewrite parse_lr_nary.
+  unfold step. cbn [a_e a_s a_do a_pre a_loc mkargs andb attrs_of].
+  cbn [impl]. unfold call at 1. cbn [runm].
+  unfold E at 1. rewrite (parse_lr_fwd G f m aE [] id body s loc dd false HG). cbv zeta. cbn [andb runm].
+  unfold alt_out. destruct pr as [r|x].
+  - rewrite (lr_forward_hit_ok _ _ _ _ _ _ _ _ _ _ (memo_get_active _ _ _ Hact)).
+    cbn [step_k]. rewrite finish_plain_attrs by exact HpE. cbn [runm post_parse attrs_of].
+    fold (wrap aE r).
+    rewrite (and_go_pure s ans (parse_lr G (S f))).
+    2:{ intros c Hc m0 l0. apply (Htail_ind c Hc). lia. }
+    destruct (and_pure s ans aa tail (Z.to_nat pl) (wrap aE r) false) as [l acc|x|].
+    + cbn [step_k]. rewrite finish_plain_attrs by exact Hpa. reflexivity.
+    + rewrite fail_of_raise. reflexivity.
+    + reflexivity.
+  - rewrite (lr_forward_hit_exc _ _ _ _ _ _ _ _ _ _ (memo_get_active _ _ _ Hact)).
+    simpl in Hpr. assert (Hi : is_index (xk x) = false) by (destruct (xk x); simpl in *; congruence).
+    rewrite Hi. cbn [step_k runm failo_of]. unfold fail_of. rewrite Hi. reflexivity.
+Qed.
+
+Definition galt_out (pl : Z) (pr : mres) : outcome :=
+  match alt_out s ans aE aa tail loc pl pr with
+  | Ok l r => Ok l (gwrap r)
+  | Err x => raise_out s aG loc (enh_rewrite aG false loc x)
+  | Div => Div
+  end.
+
+Lemma galt_answer f dd m pl pr :
+  f0 <= f -> pe_res pr -> active m (loc, nid aE, dd) = Some (pl, pr) ->
+  parse_lr G (S (S (S f))) m (mkargs alt s loc dd true) = Some (galt_out pl pr, m).
+Proof.
+  intros Hf Hpr Hact. unfold alt. rewrite parse_lr_enh.
+  unfold step. cbn [a_e a_s a_do a_pre a_loc mkargs andb attrs_of].
+  assert (Hpre : forall kk, (if callpre aG then pre_parse escape (Enh aG [] (EGroup aspy) inner) s loc kk else kk loc) = kk loc).
+  { intros kk. transitivity (kk (ws_of aG s loc)); [|rewrite HstG; reflexivity].
+    unfold ws_of. destruct (callpre aG); [apply pre_parse_enh_nil|reflexivity]. }
+  rewrite Hpre. cbn [impl]. unfold call. cbn [runm].
+  rewrite (inner_answer f dd m pl pr Hf Hpr Hact). unfold galt_out.
+  destruct (alt_out s ans aE aa tail loc pl pr) as [l r|x|].
+  - fold alt. cbn [step_k]. rewrite finish_plain_attrs by exact HpG. reflexivity.
+  - fold alt. rewrite fail_of_raise. reflexivity.
+  - reflexivity.
+Qed.
+
+Definition gdirect_out (pl : Z) (pr : mres) : outcome :=
+  match galt_out pl pr with
+  | Ok l r => Ok l (wrap ab r)
+  | Div => Div
+  | Err x =>
+    if is_fatal (xk x) then Err (enh_rewrite aE true loc (mkx (xk x) (xloc x) (xmsg x) (Some (nid aG))))
+    else if is_pe (xk x) || is_index (xk x) then Ok lb (wrap ab rb)
+    else Err (enh_rewrite aE true loc x)
+  end.
+
+Lemma gbody_reads f : f0 <= f ->
+  body_reads_own_entry (parse_lr G (S (S (S (S f))))) aE body s loc gdirect_out.
+Proof.
+  intros Hf dd m pl pr Hpr Hact. unfold super_impl, body. rewrite parse_lr_nary.
+  unfold step. cbn [a_e a_s a_do a_pre a_loc mkargs andb attrs_of impl].
+  rewrite mf_go_cons.
+  unfold call at 1. cbn [runm].
+  rewrite (galt_answer f dd m pl pr Hf Hpr Hact). unfold gdirect_out.
+  destruct (galt_out pl pr) as [l r|x|].
+  - cbn [step_k]. rewrite finish_plain_attrs by exact Hpb. reflexivity.
+  - assert (Hb : forall best, runm (parse_lr G (S (S (S f)))) m
+             (mf_go (step_k (Nary ab [] NMatchFirst [alt; base]) s dd loc) (Nary ab [] NMatchFirst [alt; base]) s loc dd [base] best)
+             = Some (Ok lb (wrap ab rb), m)).
+    { intros best. cbn [mf_go]. unfold call. cbn [runm]. rewrite (Hbase_ind (S (S (S f)))) by lia. rewrite Hbase.
+      cbn [step_k]. rewrite finish_plain_attrs by exact Hpb. reflexivity. }
+    destruct (xk x) eqn:Ek; cbn [is_fatal is_pe is_index orb]; rewrite ?Hb; try reflexivity;
+      rewrite fail_of_raise; unfold raise_out; cbn [mkx xk is_index attrs_of alt]; rewrite ?Ek; reflexivity.
+  - reflexivity.
+Qed.
+
+(* ---- the rounds at the level of as_list() values ---- *)
+Fixpoint gtiter (fuel : nat) (l : nat) (v : list tok) : tres :=
+  match fuel with
+  | 0 => TDiv
+  | S f =>
+    match tail_res ans tail l false with
+    | TOk l' ts' => if Nat.leb l' l then TOk l v else gtiter f l' [TList (v ++ map tok_as_list ts')]
+    | TErr k => if soft k then TOk l v else TErr k
+    | TDiv => TDiv
+    end
+  end.
+
+Lemma grow_gtiter n : forall l r, lb <= l ->
+  match grow gdirect_out n (Z.of_nat l) (MOk r) with
+  | Ok l' r' => gtiter n l (pr_as_list r) = TOk l' (pr_as_list r')
+  | Err x => gtiter n l (pr_as_list r) = TErr (xk x)
+  | Div => gtiter n l (pr_as_list r) = TDiv
+  end.
+Proof.
+  induction n as [|n IH]; intros l r Hl; [reflexivity|].
+  cbn [grow gtiter]. unfold gdirect_out at 1. unfold galt_out, alt_out. rewrite Nat2Z.id.
+  pose proof (and_pure_res s ans aa tail l (wrap aE r) false) as Hr.
+  destruct (and_pure s ans aa tail l (wrap aE r) false) as [l1 acc|x|].
+  - destruct Hr as [ts [E1 E2]]. rewrite E1.
+    destruct (Nat.leb l1 l) eqn:Q.
+    + apply Nat.leb_le in Q. destruct (Z.of_nat l1 <=? Z.of_nat l)%Z eqn:Q2; [|apply Z.leb_gt in Q2; lia].
+      cbn [stop_out]. rewrite Nat2Z.id. reflexivity.
+    + apply Nat.leb_gt in Q. destruct (Z.of_nat l1 <=? Z.of_nat l)%Z eqn:Q2; [apply Z.leb_le in Q2; lia|].
+      specialize (IH l1 (wrap ab (gwrap (wrap aa acc))) ltac:(lia)).
+      rewrite as_list_wrap, as_list_gwrap, as_list_wrap in IH.
+      assert (Hal : pr_as_list acc = pr_as_list r ++ map tok_as_list ts).
+      { unfold pr_as_list. rewrite E2, toks_wrap, map_app. reflexivity. }
+      rewrite Hal in IH. exact IH.
+  - rewrite Hr.
+    pose proof (raise_out_kind s aa loc x) as K1.
+    destruct (raise_out s aa loc x) as [|x1|]; try contradiction.
+    pose proof (raise_out_kind s aG loc (enh_rewrite aG false loc x1)) as K2.
+    destruct (raise_out s aG loc (enh_rewrite aG false loc x1)) as [|x2|]; try contradiction.
+    rewrite xk_enh_rewrite in K2.
+    assert (Hstop : (if (Z.of_nat lb <=? Z.of_nat l)%Z then stop_out (Z.of_nat l) (MOk r)
+                     else grow gdirect_out n (Z.of_nat lb) (MOk (wrap ab rb))) = Ok l r).
+    { destruct (Z.of_nat lb <=? Z.of_nat l)%Z eqn:Q2; [|apply Z.leb_gt in Q2; lia].
+      cbn [stop_out]. rewrite Nat2Z.id. reflexivity. }
+    destruct (soft (xk x)) eqn:S0.
+    + rewrite K1 in K2. unfold soft in K2.
+      assert (Hnf : is_fatal (xk x2) = false) by (destruct (xk x2); simpl in *; congruence).
+      rewrite Hnf, K2. rewrite Hstop. reflexivity.
+    + subst x1. rewrite S0 in K2. subst x2. rewrite xk_enh_rewrite. unfold soft in S0. rewrite S0.
+      apply orb_false_elim in S0 as [Sp Si].
+      destruct (is_fatal (xk x)) eqn:Qf; cbv iota; rewrite !xk_enh_rewrite; cbn [mkx xk]; rewrite ?xk_enh_rewrite, Sp;
+        rewrite ?xk_enh_rewrite; cbn [mkx xk]; rewrite ?xk_enh_rewrite; reflexivity.
+  - rewrite Hr. reflexivity.
+Qed.
+
+Lemma xk_seed_pe a0 l0 fid : is_pe (xk (enh_rewrite a0 false l0 (seed_exn l0 fid))) = true.
+Proof. rewrite xk_enh_rewrite. reflexivity. Qed.
+
+Lemma ggrow_seed n : loc <= lb ->
+  grow gdirect_out (S n) (Z.of_nat loc - 1) (MExc (seed_exn loc (nid aE))) =
+  grow gdirect_out n (Z.of_nat lb) (MOk (wrap ab rb)).
+Proof.
+  intros Hl. cbn [grow]. unfold gdirect_out at 1. unfold galt_out. cbn [alt_out].
+  pose proof (raise_out_kind s aG loc (enh_rewrite aG false loc (seed_exn loc (nid aE)))) as K.
+  destruct (raise_out s aG loc (enh_rewrite aG false loc (seed_exn loc (nid aE)))) as [|x2|]; try contradiction.
+  rewrite xk_enh_rewrite in K. cbn [seed_exn mkx xk soft is_pe is_index orb] in K. unfold soft in K.
+  assert (Hnf : is_fatal (xk x2) = false) by (destruct (xk x2); simpl in *; congruence).
+  rewrite Hnf, K.
+  destruct (Z.of_nat lb <=? Z.of_nat loc - 1)%Z eqn:Q; [apply Z.leb_le in Q; lia|reflexivity].
+Qed.
+
+(* Forward.parseImpl for the grouped rule *)
+Lemma grouped_forward f d m : f0 <= f -> loc <= lb ->
+  memo_get m (loc, nid aE, d) = None ->
+  exists m', lr_forward (parse_lr G (S (S (S (S f))))) aE body s loc d m =
+             Some (grow gdirect_out (length s + 2) (Z.of_nat lb) (MOk (wrap ab rb)), m') /\
+             m_cap m' = m_cap m.
+Proof.
+  intros Hf Hl Hm.
+  destruct (lr_forward_grow _ _ _ _ _ _ (gbody_reads f Hf) d m Hm) as [m' [E1 [E2 _]]].
+  exists m'. split; [|exact E2]. rewrite E1.
+  replace (length s + 3) with (S (length s + 2)) by lia. rewrite ggrow_seed by exact Hl. reflexivity.
+Qed.
+
+Lemma grouped_parse_lr f d pre loc0 m : f0 <= f -> loc <= lb ->
+  fwd_start aE s loc0 pre = loc ->
+  memo_get m (loc, nid aE, d) = None ->
+  exists m', parse_lr G (S (S (S (S (S f))))) m (mkargs E s loc0 d pre) =
+             Some (match grow gdirect_out (length s + 2) (Z.of_nat lb) (MOk (wrap ab rb)) with
+                   | Ok l r => Ok l (wrap aE r)
+                   | Err x => raise_out s aE loc x
+                   | Div => Div
+                   end, m') /\ m_cap m' = m_cap m.
+Proof.
+  intros Hf Hl Hstart Hm. unfold E.
+  rewrite (parse_lr_fwd G _ m aE [] id body s loc0 d pre HG). cbv zeta.
+  assert (Hpre : (if pre && callpre aE
+                  then pre_parse escape (Fwd aE [] (Some id)) s loc0 (fun l => Ret (Ok l pr_empty))
+                  else Ret (Ok loc0 pr_empty)) = Ret (Ok loc pr_empty)).
+  { rewrite <- Hstart. unfold fwd_start. destruct (pre && callpre aE); [|reflexivity]. rewrite pre_parse_fwd_nil. reflexivity. }
+  rewrite Hpre. cbn [runm].
+  destruct (grouped_forward f d m Hf Hl Hm) as [m' [E1 E2]]. rewrite E1.
+  exists m'. split; [|exact E2].
+  destruct (grow gdirect_out (length s + 2) (Z.of_nat lb) (MOk (wrap ab rb))) as [l r|x|].
+  - cbn [step_k]. rewrite finish_plain_attrs by exact HpE. reflexivity.
+  - rewrite step_k_raise. reflexivity.
+  - reflexivity.
+Qed.
+
+(* ---- the nested iteration against the flat one: same ends, same classes, tokens = the fold over the rounds ---- *)
+Definition a_round (t : list tok) : Prop := exists l l', tail_res ans tail l false = TOk l' t.
+
+Lemma gtiter_titer n : forall l ts v,
+  match titer ans tail n l ts with
+  | TOk l' ts' => exists rounds, Forall a_round rounds /\ ts' = ts ++ concat rounds /\
+                    gtiter n l v = TOk l' (nest_rounds v (map (map tok_as_list) rounds))
+  | TErr k => gtiter n l v = TErr k
+  | TDiv => gtiter n l v = TDiv
+  end.
+Proof.
+  induction n as [|n IH]; intros l ts v; [reflexivity|]. cbn [titer gtiter].
+  destruct (tail_res ans tail l false) as [l1 ts1|k|] eqn:Et.
+  - destruct (Nat.leb l1 l).
+    + exists []. split; [constructor|]. rewrite app_nil_r. split; reflexivity.
+    + specialize (IH l1 (ts ++ ts1) [TList (v ++ map tok_as_list ts1)]).
+      destruct (titer ans tail n l1 (ts ++ ts1)) as [l' ts'|k|]; try exact IH.
+      destruct IH as [rounds [F [E1 E2]]]. exists (ts1 :: rounds). split; [|split].
+      * constructor; [exists l, l1; exact Et|exact F].
+      * rewrite E1. cbn [concat]. rewrite app_assoc. reflexivity.
+      * rewrite E2. reflexivity.
+  - destruct (soft k); [|reflexivity]. exists []. split; [constructor|]. rewrite app_nil_r. split; reflexivity.
+  - reflexivity.
+Qed.
+
+End Grouped.
+
+(* how the answers of the GROUPED left-recursive rule and of the (flat) iterative grammar are compared: the iterative
+   token list is base's tokens followed by the tokens of the rounds (each one a match of the tail sequence); the
+   left-recursive result, seen through as_list(), is the left fold of these rounds into nested lists *)
+Definition agree_nested (ans : expr -> nat -> outcome) (tail : list expr) (wsl lb : nat) (rb : pres)
+           (o_lr o_it : outcome) : Prop :=
+  match o_lr, o_it with
+  | Ok l r, Ok l' r' =>
+    (exists rounds, Forall (a_round ans tail) rounds /\
+       toks r' = toks rb ++ concat rounds /\
+       pr_as_list r = nest_rounds (pr_as_list rb) (map (map tok_as_list) rounds)) /\
+    l' = (if Nat.eqb l lb then wsl else l)
+  | Err x, Err x' => xk x' = xk x
+  | Div, Div => True
+  | _, _ => False
+  end.
+
+(* one token from base and (operator, operand) per round: the nested result is `left_nest` of the flat one *)
+Lemma nested_is_left_nest (ans : expr -> nat -> outcome) tail (rb r r' : pres) rounds :
+  length (toks rb) = 1 ->
+  (forall t, a_round ans tail t -> length t = 2) ->
+  Forall (a_round ans tail) rounds ->
+  toks r' = toks rb ++ concat rounds ->
+  pr_as_list r = nest_rounds (pr_as_list rb) (map (map tok_as_list) rounds) ->
+  pr_as_list r = left_nest (pr_as_list r').
+Proof.
+  intros H1 H2 HF E1 E2. rewrite E2. unfold pr_as_list at 2. rewrite E1, map_app, concat_map.
+  unfold pr_as_list. destruct (toks rb) as [|a [|b t]]; try discriminate. cbn [map].
+  apply nest_rounds_left_nest.
+  rewrite Forall_forall in *. intros t Ht. apply in_map_iff in Ht as [t0 [<- Ht0]].
+  rewrite map_length. apply H2. apply HF. exact Ht0.
+Qed.
+
+Theorem grouped_iterative_gen G G' s (ans : expr -> nat -> outcome) id aE ab aG aa aspy ai ar tail base B bans fB loc f0 :
+  nth_error G id = Some (Nary ab [] NMatchFirst [Enh aG [] (EGroup aspy) (Nary aa [] NAnd (Fwd aE [] (Some id) :: tail)); base]) ->
+  plain aE -> plain aa -> plain ab -> plain aG ->
+  ws_of aG s loc = loc ->
+  indep G s ans f0 base ->
+  (forall c, In c tail -> indep G s ans f0 c) ->
+  plain ai -> plain ar ->
+  (forall fu, fB <= fu -> forall l d, parse (step G') fu (mkargs B s l d true) = Some (bans l)) ->
+  (forall l, match tail_res ans tail l false with
+             | TOk l' ts => exists r, bans l = Ok l' r /\ toks r = ts
+             | TErr k => exists x, bans l = Err x /\ (if soft k then soft (xk x) = true else xk x = k)
+             | TDiv => bans l = Div
+             end) ->
+  walks s ans tail ->
+  (forall fu, f0 <= fu -> forall d, parse (step G') fu (mkargs base s loc d false) = Some (ans base loc)) ->
+  forall lb rb, ans base loc = Ok lb rb -> loc <= lb -> lb <= length s + 1 ->
+  bans (ws_of ar s lb) = bans lb ->
+  forall f fi d pre loc0 m, f0 <= f -> f0 <= S fi -> fB <= fi ->
+  fwd_start aE s loc0 pre = loc -> fwd_start ai s loc0 pre = loc ->
+  memo_get m (loc, nid aE, d) = None ->
+  exists m' o_lr o_it,
+    parse_lr G (S (S (S (S (S f))))) m (mkargs (Fwd aE [] (Some id)) s loc0 d pre) = Some (o_lr, m') /\
+    m_cap m' = m_cap m /\
+    parse (step G') (S (S fi)) (mkargs (Nary ai [] NAnd [base; Rep ar [] true B None]) s loc0 d pre) = Some o_it /\
+    agree_nested ans tail (ws_of ar s lb) lb rb o_lr o_it.
+Proof.
+  intros HG HpE Hpa Hpb HpG Hst Hbi Hti Hpi Hpr HB HBs HW Hbnp lb rb Hbase Hl Hlb Hws f fi d pre loc0 m Hf Hfi HfB HsE HsI Hm.
+  destruct (grouped_parse_lr G s ans id aE ab aG aa aspy tail base loc f0 HG HpE Hpa Hpb HpG Hst Hbi Hti lb rb Hbase
+              f d pre loc0 m Hf Hl HsE Hm) as [m' [E1 E2]].
+  destruct (iter_parse G' s ans tail B bans fB HB HBs HW ar Hpr ai base f0 Hpi fi d pre loc0 loc lb rb
+              Hfi HfB HsI Hbnp Hbase Hlb Hws) as [oI [E3 E4]].
+  pose proof (grow_gtiter G s ans id aE ab aG aa aspy tail base loc HG Hst lb rb (length s + 2) lb (wrap ab rb) (le_n _)) as Hg.
+  rewrite as_list_wrap in Hg.
+  pose proof (gtiter_titer ans tail (length s + 2) lb (toks rb) (pr_as_list rb)) as Ht.
+  eexists m', _, oI. split; [exact E1|]. split; [exact E2|]. split; [exact E3|].
+  destruct (titer ans tail (length s + 2) lb (toks rb)) as [l' ts'|k|] eqn:Et.
+  - destruct Ht as [rounds [HF [E5 E6]]]. destruct E4 as [r' [-> E7]].
+    destruct (grow (gdirect_out s ans id aE ab aG aa aspy tail loc lb rb) (length s + 2) (Z.of_nat lb) (MOk (wrap ab rb)))
+      as [l r|x|]; rewrite E6 in Hg; try discriminate.
+    injection Hg as <- Hg. cbn [agree_nested]. split; [|reflexivity].
+    exists rounds. split; [exact HF|]. split; [rewrite E7; exact E5|]. rewrite as_list_wrap. symmetry. exact Hg.
+  - destruct E4 as [x' [-> E7]].
+    destruct (grow (gdirect_out s ans id aE ab aG aa aspy tail loc lb rb) (length s + 2) (Z.of_nat lb) (MOk (wrap ab rb)))
+      as [l r|x|]; rewrite Ht in Hg; try discriminate.
+    injection Hg as Hg. apply titer_err_hard in Et. unfold soft in Et. rewrite Hg in Et.
+    unfold raise_out. destruct (is_index (xk x)); [rewrite orb_true_r in Et; discriminate|].
+    cbn [agree_nested]. rewrite E7. exact Hg.
+  - subst oI.
+    destruct (grow (gdirect_out s ans id aE ab aG aa aspy tail loc lb rb) (length s + 2) (Z.of_nat lb) (MOk (wrap ab rb)))
+      as [l r|x|]; rewrite Ht in Hg; try discriminate. exact I.
+Qed.
+
+(* the repetition body is And(t1 :: rest) *)
+Theorem grouped_iterative G G' s (ans : expr -> nat -> outcome) id aE ab aG aa aspy ai ar at_ t1 rest base loc f0 :
+  nth_error G id = Some (Nary ab [] NMatchFirst
+                           [Enh aG [] (EGroup aspy) (Nary aa [] NAnd (Fwd aE [] (Some id) :: t1 :: rest)); base]) ->
+  plain aE -> plain aa -> plain ab -> plain aG ->
+  ws_of aG s loc = loc ->
+  indep G s ans f0 base ->
+  (forall c, In c (t1 :: rest) -> indep G s ans f0 c) ->
+  plain ai -> plain ar -> plain at_ ->
+  is_estop t1 = false ->
+  (forall c, In c rest -> pindep G' s ans f0 c) ->
+  (forall fu, f0 <= fu -> forall l d, parse (step G') fu (mkargs t1 s (ws_of at_ s l) d false) = Some (ans t1 l)) ->
+  (forall l, ws_of at_ s (ws_of ar s l) = ws_of at_ s l) ->
+  walks s ans (t1 :: rest) ->
+  (forall fu, f0 <= fu -> forall d, parse (step G') fu (mkargs base s loc d false) = Some (ans base loc)) ->
+  forall lb rb, ans base loc = Ok lb rb -> loc <= lb -> lb <= length s + 1 ->
+  forall f d pre loc0 m, f0 <= f ->
+  fwd_start aE s loc0 pre = loc -> fwd_start ai s loc0 pre = loc ->
+  memo_get m (loc, nid aE, d) = None ->
+  exists m' o_lr o_it,
+    parse_lr G (5 + f) m (mkargs (Fwd aE [] (Some id)) s loc0 d pre) = Some (o_lr, m') /\
+    m_cap m' = m_cap m /\
+    parse (step G') (3 + f)
+      (mkargs (Nary ai [] NAnd [base; Rep ar [] true (Nary at_ [] NAnd (t1 :: rest)) None]) s loc0 d pre) = Some o_it /\
+    agree_nested ans (t1 :: rest) (ws_of ar s lb) lb rb o_lr o_it.
+Proof.
+  intros HG HpE Hpa Hpb HpG Hst Hbi Hti Hpi Hpr Hpt Ht1 Hrest Hfirst H2 HW Hbnp lb rb Hbase Hl Hlb f d pre loc0 m Hf HsE HsI Hm.
+  exact (grouped_iterative_gen G G' s ans id aE ab aG aa aspy ai ar (t1 :: rest) base (Nary at_ [] NAnd (t1 :: rest))
+           (and_bans s ans at_ t1 rest) (S f0) loc f0 HG HpE Hpa Hpb HpG Hst Hbi Hti Hpi Hpr
+           (and_body_parse G' s ans at_ t1 rest f0 Hpt Hrest Hfirst)
+           (and_body_spec s ans at_ t1 rest Ht1) HW Hbnp lb rb Hbase Hl Hlb
+           (and_body_ws G' s ans at_ t1 rest f0 Hfirst ar H2 lb)
+           f (S f) d pre loc0 m Hf (le_S _ _ (le_S _ _ Hf)) (le_n_S _ _ Hf) HsE HsI Hm).
+Qed.
+
+(* ---- instance: E <<= Group(E + '+' + N) | N  vs  N + ZeroOrMore('+' + N) on "1+2+1" ---- *)
+Definition gG_attrs : attrs := mk 1 true true true false 50.
+Definition gGr : expr := Fwd gG_attrs [] (Some 0).
+Definition GG : env :=
+  [ Nary (mk 2 true false true true 41) [] NMatchFirst
+      [ Enh (mk 3 true true true false 29) [] (EGroup false)
+          (Nary (mk 6 true true true true 64) [] NAnd [gGr; lit 4 43; num 5]);
+        num 5 ] ].
+
+(* every hypothesis of the grouped theorem is met by GG on "1+2+1" (any fuel, do_actions, memo of any capacity) *)
+Lemma grouped_instance f d m : memo_get m (0, 1, d) = None ->
+  exists m' o_lr o_it,
+    parse_lr GG (6 + f) m (mkargs gGr s_121 0 d true) = Some (o_lr, m') /\ m_cap m' = m_cap m /\
+    parse (step GG) (4 + f) (mkargs IE' s_121 0 d true) = Some o_it /\
+    agree_nested (leaf_ans GG s_121) [lit 4 43; num 5] (ws_of IE_ar s_121 1) 1 (pr_of_list [tstr 49]) o_lr o_it.
+Proof.
+  intros Hm. set (s := s_121).
+  assert (Hstart : fwd_start gG_attrs s 0 true = 0) by reflexivity.
+  assert (Hb : leaf_ans GG s (num 5) 0 = Ok 1 (pr_of_list [tstr 49])) by (vm_compute; reflexivity).
+  assert (Hnp : leaf_ans_np GG s (num 5) 0 = leaf_ans GG s (num 5) 0) by (vm_compute; reflexivity).
+  assert (HW : walksb s (leaf_ans GG s) [lit 4 43; num 5] = true) by (vm_compute; reflexivity).
+  assert (Hnum : indep GG s (leaf_ans GG s) 1 (num 5)) by (apply tok_indep; reflexivity).
+  assert (Hplus : indep GG s (leaf_ans GG s) 1 (lit 4 43)) by (apply tok_indep; reflexivity).
+  assert (Htl : forall c, In c [lit 4 43; num 5] -> indep GG s (leaf_ans GG s) 1 c).
+  { intros c [<-|[<-|[]]]; assumption. }
+  assert (Hrest : forall c, In c [num 5] -> pindep GG s (leaf_ans GG s) 1 c).
+  { intros c [<-|[]]. apply tok_pindep. reflexivity. }
+  assert (Hfirst : forall fu, 1 <= fu -> forall l d0,
+            parse (step GG) fu (mkargs (lit 4 43) s (ws_of IE_at s l) d0 false) = Some (leaf_ans GG s (lit 4 43) l)).
+  { intros fu Hfu l d0. rewrite ws_of_skip by reflexivity.
+    apply (tok_nopre GG s (mk 4 false true false true 3) (KLit [43%N])); try reflexivity. exact Hfu. }
+  assert (Hbnp : forall fu, 1 <= fu -> forall d0,
+            parse (step GG) fu (mkargs (num 5) s 0 d0 false) = Some (leaf_ans GG s (num 5) 0)).
+  { intros fu Hfu d0. rewrite <- Hnp. apply tok_nopre_at; [reflexivity|exact Hfu]. }
+  assert (Hlb : 1 <= length s + 1) by (simpl; lia).
+  exact (grouped_iterative GG GG s (leaf_ans GG s) 0 gG_attrs (mk 2 true false true true 41) (mk 3 true true true false 29)
+           (mk 6 true true true true 64) false IE_ai IE_ar IE_at (lit 4 43) [num 5] (num 5) 0 1
+           eq_refl (conj eq_refl eq_refl) (conj eq_refl eq_refl) (conj eq_refl eq_refl) (conj eq_refl eq_refl) eq_refl Hnum Htl
+           (conj eq_refl eq_refl) (conj eq_refl eq_refl) (conj eq_refl eq_refl) eq_refl Hrest Hfirst
+           (fun l => ws_of_idem IE_at IE_ar s l eq_refl eq_refl eq_refl eq_refl eq_refl)
+           (walksb_ok _ _ _ HW) Hbnp 1 (pr_of_list [tstr 49]) Hb (le_S _ _ (le_n 0)) Hlb
+           (S f) d true 0 m (le_n_S _ _ (Nat.le_0_l f)) Hstart Hstart Hm).
+Qed.
+
+(* the two models run on "1+2+1": the grouped rule answers [[['1','+','2'],'+','1']] for every capacity tried, which is
+   `left_nest` of the flat list the iterative grammar answers under the plain parser *)
+Definition aslist_of (o : option (outcome * memo)) : option (nat * list tok) :=
+  match o with Some (Ok l r, _) => Some (l, pr_as_list r) | _ => None end.
+
+Lemma grouped_computed :
+  let flat := [tstr 49; tstr 43; tstr 50; tstr 43; tstr 49] in
+  (forall cap, In cap [None; Some 0; Some 1; Some 2] ->
+     aslist_of (parse_lr GG 40 (memo_empty cap) (mkargs gGr s_121 0 true true)) = Some (5, left_nest flat)) /\
+  res_of_plain (parse (step GG) 40 (mkargs IE' s_121 0 true true)) = Some (5, flat) /\
+  left_nest flat = [TList [TList [tstr 49; tstr 43; tstr 50]; tstr 43; tstr 49]].
+Proof.
+  split; [|split].
+  - intros cap [<-|[<-|[<-|[<-|[]]]]]; vm_compute; reflexivity.
+  - vm_compute. reflexivity.
+  - reflexivity.
+Qed.
+
+(* tokens(LR) = left_nest(tokens(iterative)) whenever base yields one token and every round two (operator, operand) *)
+Lemma agree_nested_left_nest (ans : expr -> nat -> outcome) tail wsl lb rb o_lr o_it :
+  length (toks rb) = 1 ->
+  (forall t, a_round ans tail t -> length t = 2) ->
+  agree_nested ans tail wsl lb rb o_lr o_it ->
+  match o_lr, o_it with
+  | Ok l r, Ok l' r' => pr_as_list r = left_nest (pr_as_list r') /\ l' = (if Nat.eqb l lb then wsl else l)
+  | Err x, Err x' => xk x' = xk x
+  | Div, Div => True
+  | _, _ => False
+  end.
+Proof.
+  intros H1 H2 H. destruct o_lr as [l r|x|], o_it as [l' r'|x'|]; cbn [agree_nested] in H; try exact H.
+  destruct H as [[rounds [HF [E1 E2]]] El]. split; [|exact El].
+  exact (nested_is_left_nest ans tail rb r r' rounds H1 H2 HF E1 E2).
+Qed.
